@@ -75,13 +75,15 @@ def Verdict.weaken : Verdict → Verdict
 def field (equal matched : Bool) (k : Verdict) : Verdict :=
   if equal then k else if matched then .reject else k.weaken
 
-/-- the EtherType announcing the next layer (`none`: no constraint) -/
-def etherTypeOf : List SLayer → Option Bytes
-  | .vlan _ :: _ => some [0x81, 0x00]
-  | .ip4 _ :: _ => some [0x08, 0x00]
-  | .ip6 _ _ :: _ => some [0x86, 0xdd]
-  | .arp _ _ :: _ => some [0x08, 0x06]
-  | _ => none
+/-- the EtherTypes that may announce the next layer (`[]`: no constraint).  A VLAN tag is announced by the customer
+    tag type 0x8100, the 802.1ad service tag type 0x88a8 (what the outer of two nested tags carries) or the
+    pre-standard 0x9100. -/
+def etherTypeOf : List SLayer → List Bytes
+  | .vlan _ :: _ => [[0x81, 0x00], [0x88, 0xa8], [0x91, 0x00]]
+  | .ip4 _ :: _ => [[0x08, 0x00]]
+  | .ip6 _ _ :: _ => [[0x86, 0xdd]]
+  | .arp _ _ :: _ => [[0x08, 0x06]]
+  | _ => []
 
 /-- the IP protocol number announcing the next layer -/
 def ipProtoOf : List SLayer → Option UInt8
@@ -91,10 +93,7 @@ def ipProtoOf : List SLayer → Option UInt8
   | .icmp6echo _ _ :: _ => some 58
   | _ => none
 
-def tagOk (want : Option Bytes) (got : Bytes) : Bool :=
-  match want with
-  | none => true
-  | some t => t == got
+def tagOk (want : List Bytes) (got : Bytes) : Bool := want.isEmpty || want.contains got
 
 /-- IPv6 extension headers and other non-transport next-header values (RFC 8200 §4, IANA) -/
 def isV6Extension (h : UInt8) : Bool :=
